@@ -56,7 +56,7 @@ from . import real as R
 PY = common.PY
 LIBC = os.path.join(common.REPO, "lib", "c")
 LIBGO = os.path.join(common.REPO, "lib", "go", "bitproto.go")
-NPROGS = {"quick": 110, "thorough": 1200}
+NPROGS = {"quick": 90, "thorough": 1200}
 WORKERS = 16
 
 # ===================================================================== helper scripts (scratch)
@@ -1608,14 +1608,14 @@ def check(run: common.Run, drv: Any, rng: random.Random, tier: str) -> None:
             try:
                 futs = [ex.submit(run_job, env, job, sc.path(f"p{k}")) for k, job in enumerate(jobs)]
                 for p, fut in zip(progs, futs):
-                    account(run, p, fut.result())
+                    account(run, p, fut.result(), confirmed)
             finally:
                 ex.shutdown(wait=True, cancel_futures=True)
         finally:
             env.close()
 
 
-def account(run: common.Run, p: Prog, res: Dict[str, Any]) -> None:
+def account(run: common.Run, p: Prog, res: Dict[str, Any], confirmed: Dict[str, bool]) -> None:
     if not res["accepted"]:
         run.count("program-not-accepted(skipped)")
         if res.get("reject_traceback"):
@@ -1640,6 +1640,9 @@ def account(run: common.Run, p: Prog, res: Dict[str, Any]) -> None:
     masked = False
     for f in res["findings"]:
         kf = route(p, f)
+        if kf is not None and not confirmed.get(kf):
+            run.count("fingerprint-of-" + kf + "-but-its-witness-no-longer-fails")
+            kf = None  # a finding is only 'known' while its witness was re-confirmed in this run
         if kf is not None:
             run.count("routed:" + kf + ":" + f["kind"])
             if f["kind"] == "py-import":
